@@ -8,7 +8,11 @@
  *                     scan_identifier, ratio_gcd, ...) can be called directly.
  *   (separate)      : the repository sources are compiled as their own objects
  *                     and linked with -Wl,--wrap=malloc,... so that every
- *                     allocation request can be counted and failed (F lines).
+ *                     allocation request can be counted and failed (F lines),
+ *                     and --wrap=edn_arena_create,edn_arena_destroy so that the
+ *                     logical requests, frees and arena lives of one read can be
+ *                     traced in the vocabulary of the allocation-aware reader
+ *                     model lean/Edn/Model/ReaderA.lean (H lines).
  *
  * One ASCII line in, one ASCII line out, flushed after every case, so that
  * after a crash the number of output lines names the crashing input line.
@@ -29,14 +33,36 @@
 #include <unistd.h>
 
 #ifdef VERIF_UNITY
+/* VF_FILE names the library file being included.  When two library files define a file-private (static)
+ * name alike - legal for the library, a clash only for this single translation unit - the build passes
+ * -D<name>=VF_CAT(<name>__,VF_FILE) for exactly those names (vlib/common.py unity_renames), which gives each
+ * file its own copy of the name; nothing is renamed as long as there is no clash. */
+#undef VF_FILE
+#define VF_FILE vf_edn_c
 #include "edn.c"
+#undef VF_FILE
+#define VF_FILE vf_arena_c
 #include "arena.c"
+#undef VF_FILE
+#define VF_FILE vf_simd_c
 #include "simd.c"
+#undef VF_FILE
+#define VF_FILE vf_string_c
 #include "string.c"
+#undef VF_FILE
+#define VF_FILE vf_number_c
 #include "number.c"
+#undef VF_FILE
+#define VF_FILE vf_character_c
 #include "character.c"
+#undef VF_FILE
+#define VF_FILE vf_identifier_c
 #include "identifier.c"
+#undef VF_FILE
+#define VF_FILE vf_symbolic_c
 #include "symbolic.c"
+#undef VF_FILE
+#define VF_FILE vf_equality_c
 #include "equality.c"
 /* C16 (unity build): the scratch allocations of uniqueness.c and the arena requests of the
  * collection builder can be failed on demand; inactive unless a B line or a d<c><m> op sets them */
@@ -45,6 +71,8 @@ static void* vf_u_malloc(size_t n) { return vf_u_fail_malloc ? NULL : malloc(n);
 static void* vf_u_calloc(size_t a, size_t b) { return vf_u_fail_calloc ? NULL : calloc(a, b); }
 #define malloc vf_u_malloc
 #define calloc vf_u_calloc
+#undef VF_FILE
+#define VF_FILE vf_uniqueness_c
 #include "uniqueness.c"
 #undef malloc
 #undef calloc
@@ -58,12 +86,24 @@ static void* vf_u_arena_alloc(edn_arena_t* a, size_t n) {
     return edn_arena_alloc(a, n);
 }
 #define edn_arena_alloc vf_u_arena_alloc
+#undef VF_FILE
+#define VF_FILE vf_collection_c
 #include "collection.c"
 #undef edn_arena_alloc
+#undef VF_FILE
+#define VF_FILE vf_tagged_c
 #include "tagged.c"
+#undef VF_FILE
+#define VF_FILE vf_discard_c
 #include "discard.c"
+#undef VF_FILE
+#define VF_FILE vf_reader_c
 #include "reader.c"
+#undef VF_FILE
+#define VF_FILE vf_metadata_c
 #include "metadata.c"
+#undef VF_FILE
+#define VF_FILE vf_newline_finder_c
 #include "newline_finder.c"
 #else
 #include "edn.h"
@@ -138,7 +178,99 @@ static int ledger_del(void* p) {
 
 static int vf_track = 0; /* ledger is maintained while vf_track is set */
 
+/* ---- H command: logical-request accounting (the vocabulary of lean/Edn/Model/ReaderA.lean) ----
+ * A logical request is one edn_arena_alloc call of the library, one malloc/calloc/realloc call of the
+ * library outside edn_arena_alloc (the two mallocs of edn_arena_create included).  What happens inside
+ * __real_edn_arena_alloc (slow path: malloc of a new block) and inside __real_edn_arena_destroy (frees) is
+ * neither counted nor failed nor traced.  Raw blocks carry the index of the request that returned them, so
+ * that the trace can say which block a free / realloc releases.  Inactive unless an H line is being served;
+ * F, the ledger above and every other command are untouched. */
+edn_arena_t* __real_edn_arena_create(void);
+void __real_edn_arena_destroy(edn_arena_t*);
+static int vh_active = 0;
+static int vh_in_arena = 0;  /* nesting inside the real arena allocator / destructor */
+static int vh_in_create = 0; /* inside edn_arena_create: its mallocs are traced as n / N */
+static long vh_req = 0, vh_fail_at = 0;
+static int vh_fail_from = 0;
+static long vh_live = 0;
+static int vh_creates = 0;        /* edn_arena_create calls so far: 0 = the parser's arena, 1 = the temporary one */
+static edn_arena_t* vh_arena[4];  /* arenas by creation ordinal */
+static int vh_arena_state[4];     /* 0 none, 1 alive, 2 destroyed */
+static char* vh_trace = NULL;
+static size_t vh_trace_len = 0, vh_trace_cap = 0;
+#define VH_N 65536 /* more than the raw blocks one read of a <= 25 kB document can hold at a time */
+static void* vh_ptr[VH_N];
+static long vh_idx[VH_N];
+
+static void vh_emit(const char* fmt, long v) {
+    if (vh_trace_len + 32 > vh_trace_cap) {
+        vh_trace_cap = vh_trace_cap ? vh_trace_cap * 2 : 4096;
+        vh_trace = (char*) __real_realloc(vh_trace, vh_trace_cap);
+    }
+    vh_trace_len += (size_t) snprintf(vh_trace + vh_trace_len, vh_trace_cap - vh_trace_len, fmt, v);
+}
+static void vh_add(void* p, long idx) {
+    size_t h = ((uintptr_t) p >> 4) % VH_N;
+    for (size_t i = 0; i < VH_N; i++) {
+        size_t k = (h + i) % VH_N;
+        if (vh_ptr[k] == NULL || vh_ptr[k] == (void*) 1) {
+            vh_ptr[k] = p;
+            vh_idx[k] = idx;
+            vh_live++;
+            return;
+        }
+    }
+}
+/* returns the request index of the block, or -1 when it is not a live raw block */
+static long vh_del(void* p) {
+    size_t h = ((uintptr_t) p >> 4) % VH_N;
+    for (size_t i = 0; i < VH_N; i++) {
+        size_t k = (h + i) % VH_N;
+        if (vh_ptr[k] == NULL)
+            return -1;
+        if (vh_ptr[k] == p) {
+            vh_ptr[k] = (void*) 1;
+            vh_live--;
+            return vh_idx[k];
+        }
+    }
+    return -1;
+}
+static int vh_next_fails(void) {
+    vh_req++;
+    return vh_fail_at && (vh_req == vh_fail_at || (vh_fail_from && vh_req >= vh_fail_at));
+}
+/* kind: 'm' malloc(a), 'c' calloc(a, b), 'r' realloc(old, a) */
+static void* vh_raw(char kind, void* old, size_t a, size_t b) {
+    if (vh_in_arena)
+        return kind == 'm' ? __real_malloc(a) : kind == 'c' ? __real_calloc(a, b) : __real_realloc(old, a);
+    int fail = vh_next_fails();
+    long idx = vh_req;
+    void* p = NULL;
+    if (!fail)
+        p = kind == 'm' ? __real_malloc(a) : kind == 'c' ? __real_calloc(a, b) : __real_realloc(old, a);
+    if (kind == 'r') {
+        /* on success the old block is gone; on failure it stays live */
+        long oldidx = -1;
+        if (old) {
+            oldidx = vh_del(old);
+            if (!p && oldidx >= 0)
+                vh_add(old, oldidx);
+        }
+        vh_emit(p ? "r%ld" : "R%ld", oldidx);
+    } else {
+        char letter = (kind == 'm' && vh_in_create) ? 'n' : kind;
+        char f[2] = {p ? letter : (char) (letter - 32), 0};
+        vh_emit(f, 0);
+    }
+    if (p)
+        vh_add(p, idx);
+    return p;
+}
+
 void* __wrap_malloc(size_t n) {
+    if (vh_active)
+        return vh_raw('m', NULL, n, 0);
     if (vf_should_fail('m', n))
         return NULL;
     void* p = __real_malloc(n);
@@ -147,6 +279,8 @@ void* __wrap_malloc(size_t n) {
     return p;
 }
 void* __wrap_calloc(size_t a, size_t b) {
+    if (vh_active)
+        return vh_raw('c', NULL, a, b);
     if (vf_should_fail('c', a * b))
         return NULL;
     void* p = __real_calloc(a, b);
@@ -155,6 +289,8 @@ void* __wrap_calloc(size_t a, size_t b) {
     return p;
 }
 void* __wrap_realloc(void* q, size_t n) {
+    if (vh_active)
+        return vh_raw('r', q, n, 0);
     if (vf_should_fail('r', n))
         return NULL;
     if (vf_track && q)
@@ -165,16 +301,73 @@ void* __wrap_realloc(void* q, size_t n) {
     return p;
 }
 void __wrap_free(void* p) {
+    if (vh_active && !vh_in_arena && p) {
+        long idx = vh_del(p);
+        if (idx >= 0)
+            vh_emit("f%ld", idx);
+        else
+            vh_emit("f?", 0);
+    }
     if (vf_track && p)
         ledger_del(p);
     __real_free(p);
 }
 void* __wrap_edn_arena_alloc(edn_arena_t* a, size_t n) {
+    if (vh_active) {
+        /* one logical request, on the parser's arena (a / A) or on the temporary one (t / T); a NULL arena
+         * refuses every request by itself */
+        int tmp = (a != NULL && a == vh_arena[1] && vh_arena_state[1] == 1);
+        void* p = NULL;
+        /* an injected failure is delivered by the arena itself (a request no arena can meet), so that the arena
+         * counts it among its refused requests exactly as it counts a failed block malloc */
+        int fail = vh_next_fails();
+        vh_in_arena++;
+        p = fail ? (a ? __real_edn_arena_alloc(a, (size_t) -1) : NULL) : __real_edn_arena_alloc(a, n);
+        vh_in_arena--;
+        vh_emit(tmp ? (p ? "t" : "T") : (p ? "a" : "A"), 0);
+        return p;
+    }
     if (vf_should_fail('a', n))
-        return NULL;
+        return a ? __real_edn_arena_alloc(a, (size_t) -1) : NULL; /* refused and counted by the arena */
     /* a malloc made by the slow path (new block) is a request of its own: it can fail while
      * the arena code around it keeps running */
     return __real_edn_arena_alloc(a, n);
+}
+edn_arena_t* __wrap_edn_arena_create(void) {
+    if (!vh_active)
+        return __real_edn_arena_create();
+    int ord = vh_creates++;
+    /* its two mallocs are logical requests of their own (counted, failed and traced by __wrap_malloc) */
+    vh_in_create++;
+    edn_arena_t* a = __real_edn_arena_create();
+    vh_in_create--;
+    if (a && ord < 4) {
+        /* the record and the first block now belong to the arena: edn_arena_destroy releases them */
+        vh_del(a);
+        vh_del(a->first);
+        vh_arena[ord] = a;
+        vh_arena_state[ord] = 1;
+    }
+    return a;
+}
+void __wrap_edn_arena_destroy(edn_arena_t* a) {
+    if (!vh_active || a == NULL) {
+        __real_edn_arena_destroy(a);
+        return;
+    }
+    int ord = -1;
+    for (int i = 0; i < 4; i++)
+        if (vh_arena[i] == a && vh_arena_state[i] == 1)
+            ord = i;
+    if (ord >= 0) {
+        vh_arena_state[ord] = 2;
+        vh_emit("d%ld", (long) ord);
+    } else {
+        vh_emit("d?", 0);
+    }
+    vh_in_arena++;
+    __real_edn_arena_destroy(a);
+    vh_in_arena--;
 }
 #endif
 
@@ -483,7 +676,8 @@ static void dump_value(FILE* f, const edn_value_t* v, int depth) {
         fputs("(deep)", f);
         return;
     }
-    audit_node(f, v);
+    /* the accessor audit runs AFTER the node's own dump (end of this function): the dump must show what the FIRST
+     * accessor call on a node answers (lazily materialised payloads), not the second */
     switch (edn_type(v)) {
         case EDN_TYPE_NIL:
             fputs("(nil", f);
@@ -686,6 +880,7 @@ static void dump_value(FILE* f, const edn_value_t* v, int depth) {
     }
     dump_meta(f, v, depth);
     fputc(')', f);
+    audit_node(f, v);
 }
 
 /* ------------------------------------------------------------------ */
@@ -1402,9 +1597,339 @@ static void free_regs(void) {
  *   gs:<p>:<hex>   edn_map_get_string_key
  *   d:<p>          edn_has_duplicates over the children of p (unity or lib)
  *   t:<p>          dump without ranges
+ *   bg:<p>         one direct edn_bigint_get / edn_bigdec_get call, printed like t: (real library only)
+ *   f:<K>          free the document of register K now (edn_free + its input); the other registers stay live.
+ *                  Prints freed / none.  The pointers remembered by sg for values of register K are forgotten.
  */
+/* ------------------------------------------------------------------ */
+/* C01: handlers that work while the read is in flight (command K) and  */
+/* registries that change under live values (script tokens o<K>= xr xu  */
+/* xq).  Oracles on the real library only; the model is not asked.      */
+/* ------------------------------------------------------------------ */
+/* "Busy" handlers are the preset handlers (same tags, same log entries, same results) preceded by what a real
+ * handler does with its operand and its arena (include/edn.h: edn_string_get / getters on the operand,
+ * edn_arena_alloc for the payload, edn_external_create): every accessor on the operand - strings are materialised
+ * while the arena is still being allocated from -, allocations of assorted sizes written through a typed pointer
+ * and filled with a pattern, optionally hash and equality.  The expected answer of `K opt hex` is therefore the
+ * model's answer to `R (opt & 7) | 8 hex`; anomalies are appended as !WORDS. */
+typedef struct {
+    double d;
+    size_t n;
+} busy_rec_t;
+#define BUSY_MAX 2048
+static struct {
+    unsigned char* p;
+    size_t n;
+    unsigned char pat;
+} busy_blk[BUSY_MAX];
+static int busy_nblk = 0;
+static unsigned busy_ctr = 0;
+static int busy_hash = 0;
+static long busy_calls = 0;
+static char busy_marks[256];
+
+static void busy_mark(const char* w) {
+    if (strstr(busy_marks, w) == NULL && strlen(busy_marks) + strlen(w) + 3 < sizeof(busy_marks)) {
+        strcat(busy_marks, " !");
+        strcat(busy_marks, w);
+    }
+}
+
+static void busy_work(edn_value_t* v, edn_arena_t* a) {
+    static const size_t sizes[] = {1, 24, 3, 100, 7, 13, 8, 61, 4101, 2, 17, 33, 5, 20011, 9, 6};
+    busy_calls++;
+    if (v != NULL && ((uintptr_t) v % _Alignof(edn_value_t)) != 0)
+        busy_mark("MISALIGNED-OPERAND");
+    /* 1. every accessor on the operand and everything below it */
+    {
+        char* buf = NULL;
+        size_t bl = 0;
+        FILE* f = open_memstream(&buf, &bl);
+        if (f) {
+            dump_value(f, v, 0);
+            fclose(f);
+            if (buf && (strchr(buf, '!') || strstr(buf, "NOTERM") || strstr(buf, "UNSTABLE")))
+                busy_mark("ACCESSOR-INSIDE-HANDLER");
+            free(buf);
+        }
+    }
+    if (busy_hash) {
+        (void) edn_value_hash(v);
+        (void) edn_value_equal(v, v);
+    }
+    /* 2. a payload record (double + size_t, the example of include/edn.h) and 1-3 blocks of odd sizes */
+    if (a != NULL) {
+        busy_rec_t* rec = (busy_rec_t*) edn_arena_alloc(a, sizeof(busy_rec_t));
+        if (rec != NULL) {
+            if (((uintptr_t) rec % _Alignof(busy_rec_t)) != 0) {
+                busy_mark("MISALIGNED-ALLOCATION");
+            } else {
+                rec->d = 2.5;
+                rec->n = busy_ctr;
+            }
+            if (busy_nblk < BUSY_MAX) {
+                memset(rec, 0xC3, sizeof(busy_rec_t));
+                busy_blk[busy_nblk].p = (unsigned char*) rec;
+                busy_blk[busy_nblk].n = sizeof(busy_rec_t);
+                busy_blk[busy_nblk++].pat = 0xC3;
+            }
+        }
+        int k = 1 + (int) (busy_ctr % 3);
+        for (int i = 0; i < k; i++) {
+            size_t n = sizes[busy_ctr++ % (sizeof(sizes) / sizeof(sizes[0]))];
+            unsigned char* p = (unsigned char*) edn_arena_alloc(a, n);
+            if (p == NULL)
+                continue;
+            unsigned char pat = (unsigned char) (0x40 + (busy_ctr & 0x3f));
+            memset(p, pat, n);
+            if (busy_nblk < BUSY_MAX) {
+                busy_blk[busy_nblk].p = p;
+                busy_blk[busy_nblk].n = n;
+                busy_blk[busy_nblk++].pat = pat;
+            }
+        }
+    }
+}
+
+static edn_value_t* busy_check_value(edn_value_t* r) {
+    if (r != NULL && ((uintptr_t) r % _Alignof(edn_value_t)) != 0)
+        busy_mark("MISALIGNED-VALUE-CREATED");
+    return r;
+}
+static edn_value_t* hb_id(edn_value_t* v, edn_arena_t* a, const char** msg) {
+    busy_work(v, a);
+    return h_id(v, a, msg);
+}
+static edn_value_t* hb_fail(edn_value_t* v, edn_arena_t* a, const char** msg) {
+    busy_work(v, a);
+    return h_fail(v, a, msg);
+}
+static edn_value_t* hb_failq(edn_value_t* v, edn_arena_t* a, const char** msg) {
+    busy_work(v, a);
+    return h_failq(v, a, msg);
+}
+static edn_value_t* hb_ext(edn_value_t* v, edn_arena_t* a, const char** msg) {
+    busy_work(v, a);
+    return busy_check_value(h_ext(v, a, msg));
+}
+static edn_value_t* hb_alt(edn_value_t* v, edn_arena_t* a, const char** msg) {
+    busy_work(v, a);
+    return h_alt(v, a, msg);
+}
+/* #xt <int n> : external value of type n & 255 (other operands: type 7); data = length of the operand's text */
+static edn_value_t* hb_xt(edn_value_t* v, edn_arena_t* a, const char** msg) {
+    (void) msg;
+    busy_work(v, a);
+    log_call("xt", v);
+    int64_t i = 0;
+    uint32_t tid = 7;
+    if (edn_int64_get(v, &i))
+        tid = (uint32_t) (i & 255);
+    size_t s = 0, e = 0;
+    edn_source_position(v, &s, &e);
+    return busy_check_value(edn_external_create(a, (void*) (uintptr_t) (e - s), tid));
+}
+
+static edn_reader_registry_t* busy_registry = NULL;
+static void ensure_busy(void) {
+    if (busy_registry)
+        return;
+    busy_registry = edn_reader_registry_create();
+    edn_reader_register(busy_registry, "id", hb_id);
+    edn_reader_register(busy_registry, "my/id", hb_id);
+    edn_reader_register(busy_registry, "fail", hb_fail);
+    edn_reader_register(busy_registry, "failq", hb_failq);
+    edn_reader_register(busy_registry, "ext", hb_ext);
+    edn_reader_register(busy_registry, "inst", hb_alt);
+    edn_reader_register(busy_registry, "xt", hb_xt);
+}
+
+/* opt: bit0 eof value, bits1-2 default mode, bit3 preset registry, bit4 NULL options, bit5 busy registry (wins over
+ * bit3), bit6 busy handlers also hash / compare their operand, bits 8.. start of the allocation-size schedule */
+static edn_result_t c01_read(const char* in, size_t n, int opt) {
+    if (!(opt & 32))
+        return do_read(in, n, opt & 31);
+    edn_parse_options_t o;
+    memset(&o, 0, sizeof(o));
+    o.eof_value = (opt & 1) ? EOF_SENTINEL : NULL;
+    o.default_reader_mode = (edn_default_reader_mode_t) ((opt >> 1) & 3);
+    ensure_busy();
+    o.reader_registry = busy_registry;
+    busy_hash = (opt & 64) != 0;
+    busy_ctr = (unsigned) (opt >> 8);
+    busy_nblk = 0;
+    busy_calls = 0;
+    busy_marks[0] = 0;
+    call_log_len = 0;
+    call_log[0] = 0;
+    return edn_read_with_options(in, n, &o);
+}
+
+/* number of nodes of a returned tree that do not lie at an address suitable for edn_value_t */
+static long c01_misaligned_nodes(const edn_value_t* v, int depth) {
+    if (v == NULL || depth > 5000)
+        return 0;
+    long bad = ((uintptr_t) v % _Alignof(edn_value_t)) != 0 ? 1 : 0;
+    switch (edn_type(v)) {
+        case EDN_TYPE_LIST:
+        case EDN_TYPE_VECTOR:
+        case EDN_TYPE_SET:
+        case EDN_TYPE_TAGGED: {
+            size_t n = edn_type(v) == EDN_TYPE_LIST     ? edn_list_count(v)
+                       : edn_type(v) == EDN_TYPE_VECTOR ? edn_vector_count(v)
+                       : edn_type(v) == EDN_TYPE_SET    ? edn_set_count(v)
+                                                        : 1;
+            for (size_t i = 0; i < n; i++)
+                bad += c01_misaligned_nodes(child_at((edn_value_t*) v, i), depth + 1);
+            break;
+        }
+        case EDN_TYPE_MAP: {
+            size_t n = edn_map_count(v);
+            for (size_t i = 0; i < 2 * n; i++)
+                bad += c01_misaligned_nodes(child_at((edn_value_t*) v, i), depth + 1);
+            break;
+        }
+        default:
+            break;
+    }
+#ifdef EDN_ENABLE_CLOJURE_EXTENSION
+    if (edn_value_has_meta(v))
+        bad += c01_misaligned_nodes(edn_value_meta(v), depth + 1);
+#endif
+    return bad;
+}
+
+/* K <opt> <hex> : read with the busy registry (bit5 is implied); prints what `R (opt&7)|8` prints, then
+ * " ;busy calls=<handler calls> blocks=<handler allocations>" and the anomalies seen */
+static void cmd_read_busy(char* args) {
+    char* optS = strtok(args, " \n");
+    char* hex = strtok(NULL, " \n");
+    int opt = (optS ? atoi(optS) : 0) | 32;
+    size_t n;
+    unsigned char* b = unhex(hex, &n);
+    placed_t p = place_input(b, n);
+    unsigned char* copy = NULL;
+    if (n && place_mode != 1) {
+        copy = (unsigned char*) malloc(n);
+        memcpy(copy, p.ptr, n);
+    }
+    if (sigsetjmp(alarm_jmp, 1)) {
+        printf("timeout\n");
+        fflush(stdout);
+        free(b);
+        return;
+    }
+    cpu_alarm(10);
+    edn_result_t r = c01_read(p.ptr, n, opt & ~16);
+    cpu_alarm(0);
+    int live = r.value != NULL && r.value != EOF_SENTINEL;
+    long bad = live ? c01_misaligned_nodes(r.value, 0) : 0;
+    print_result(stdout, r, 1);
+    if (copy && memcmp(copy, p.ptr, n) != 0)
+        fputs(" INPUT-MODIFIED", stdout);
+    printf(" ;busy calls=%ld blocks=%d", busy_calls, busy_nblk);
+    if (bad)
+        printf(" !MISALIGNED-NODES=%ld", bad);
+    if (live) {
+        /* what the handlers wrote into their own allocations is still there */
+        int changed = 0;
+        for (int i = 0; i < busy_nblk; i++)
+            for (size_t j = 0; j < busy_blk[i].n; j++)
+                if (busy_blk[i].p[j] != busy_blk[i].pat)
+                    changed = 1;
+        if (changed)
+            fputs(" !HANDLER-ALLOCATION-OVERWRITTEN", stdout);
+    }
+    fputs(busy_marks, stdout);
+    fputc('\n', stdout);
+    fflush(stdout);
+    if (live)
+        edn_free(r.value);
+    free(copy);
+    release_input(p);
+    free(b);
+}
+
+/* script tokens (Q):
+ *   o<K>=<opt>,<hex>  read into register K with options (c01_read: registries, default modes, eof value)
+ *   xr:<id>:<EH>      edn_external_register_type (E, H as in the X command), prints 0/1
+ *   xu:<id>           edn_external_unregister_type, prints u
+ *   xq:<id>           which callbacks are registered for id (as the X command prints them)
+ * every type registered by a script is unregistered when the script ends */
+static uint32_t c01_ids[64];
+static int c01_nids = 0;
+
+static int c01_script_token(const char* tok) {
+    if (tok[0] == 'o' && tok[1] >= '0' && tok[1] <= '9') {
+        int k = atoi(tok + 1);
+        const char* eq = strchr(tok, '=');
+        const char* comma = eq ? strchr(eq, ',') : NULL;
+        if (!eq || !comma || k < 0 || k >= NREG) {
+            printf("bad-op");
+            return 1;
+        }
+        int opt = atoi(eq + 1);
+        size_t n;
+        unsigned char* b = unhex(comma + 1, &n);
+        if (regs[k]) {
+            edn_free(regs[k]);
+            release_input(reg_in[k]);
+            regs[k] = NULL;
+        }
+        reg_in[k] = place_input(b, n);
+        edn_result_t r = c01_read(reg_in[k].ptr, n, opt);
+        if (r.value != NULL && r.value != EOF_SENTINEL) {
+            regs[k] = r.value;
+            printf("ok");
+        } else {
+            if (r.value != NULL)
+                printf("eofval");
+            else
+                printf("err:%s", ((int) r.error >= 0 && (int) r.error <= 12) ? ERRN[r.error] : "BADCODE");
+            release_input(reg_in[k]);
+        }
+        if (opt & 32)
+            fputs(busy_marks, stdout);
+        free(b);
+        return 1;
+    }
+    if (strncmp(tok, "xr:", 3) == 0 || strncmp(tok, "xu:", 3) == 0 || strncmp(tok, "xq:", 3) == 0) {
+        uint32_t id = (uint32_t) strtoul(tok + 3, NULL, 10);
+        const char* c2 = strchr(tok + 3, ':');
+        int h = c2 ? atoi(c2 + 1) : 1;
+        if (tok[1] == 'r') {
+            int e = h >= 10 ? h / 10 : h, hh = h >= 10 ? h % 10 : 0;
+            int known = 0;
+            for (int i = 0; i < c01_nids; i++)
+                if (c01_ids[i] == id)
+                    known = 1;
+            if (!known && c01_nids < 64)
+                c01_ids[c01_nids++] = id;
+            bool ok = edn_external_register_type(id, e == 1 ? x_eq1 : x_eq2, hh == 1 ? x_hash1 : (hh == 2 ? x_hash2 : NULL));
+            printf("%d", ok ? 1 : 0);
+        } else if (tok[1] == 'u') {
+            edn_external_unregister_type(id);
+            printf("u");
+        } else {
+            edn_external_equal_fn fn = edn_external_lookup_equal(id);
+            edn_external_hash_fn hf = edn_external_lookup_hash(id);
+            int ec = fn == x_eq1 ? 1 : (fn == x_eq2 ? 2 : (fn ? 9 : 0)), hc = hf == x_hash1 ? 1 : (hf == x_hash2 ? 2 : (hf ? 9 : 0));
+            printf("%d", ec * 10 + hc);
+        }
+        return 1;
+    }
+    return 0;
+}
+
+static void c01_script_end(void) {
+    for (int i = 0; i < c01_nids; i++)
+        edn_external_unregister_type(c01_ids[i]);
+    c01_nids = 0;
+}
+
 static const edn_value_t* sg_vals[64];
 static const char* sg_ptrs[64];
+static int sg_regs[64]; /* register each remembered value belongs to (f:<K> forgets them) */
 static int sg_n = 0;
 
 static void cmd_script(char* args) {
@@ -1439,6 +1964,8 @@ static void cmd_script(char* args) {
                 }
             }
             free(b);
+        } else if (c01_script_token(tok)) {
+            /* o<K>=<opt>,<hex> xr xu xq : see c01_script_token */
         } else {
             char cpy[1024];
             strncpy(cpy, tok, sizeof(cpy) - 1);
@@ -1489,8 +2016,29 @@ static void cmd_script(char* args) {
                         printf("!UNSTABLE");
                     if (seen_at < 0 && sg_n < 64) {
                         sg_vals[sg_n] = p;
+                        sg_regs[sg_n] = atoi(a1);
                         sg_ptrs[sg_n++] = s;
                     }
+                }
+            } else if (strcmp(op, "f") == 0) {
+                /* C06 (lifetimes): a document is freed while values of other documents are still in use */
+                int k = a1 ? atoi(a1) : -1;
+                if (k >= 0 && k < NREG && regs[k]) {
+                    edn_free(regs[k]);
+                    regs[k] = NULL;
+                    release_input(reg_in[k]);
+                    int w = 0;
+                    for (int q = 0; q < sg_n; q++) {
+                        if (sg_regs[q] != k) {
+                            sg_vals[w] = sg_vals[q];
+                            sg_ptrs[w] = sg_ptrs[q];
+                            sg_regs[w++] = sg_regs[q];
+                        }
+                    }
+                    sg_n = w;
+                    printf("freed");
+                } else {
+                    printf("none");
                 }
             } else if (strcmp(op, "se") == 0) {
                 size_t n;
@@ -1558,6 +2106,32 @@ static void cmd_script(char* args) {
                 dump_ranges = 0;
                 dump_value(stdout, p, 0);
                 dump_ranges = save_ranges;
+            } else if (strcmp(op, "bg") == 0) {
+                /* C04: ONE direct call of the big-number accessor (no accessor audit before it, unlike t:), printed like
+                 * the dump without ranges; real library only, the model is not asked */
+                size_t len = 0;
+                bool neg = false;
+                uint8_t radix = 0;
+                const char* dg;
+                if (p && edn_type(p) == EDN_TYPE_BIGINT) {
+                    dg = edn_bigint_get(p, &len, &neg, &radix);
+                    printf("(bigint %d %u ", neg ? 1 : 0, (unsigned) radix);
+                    if (dg)
+                        put_hex(stdout, dg, len);
+                    else
+                        fputs("NULL", stdout);
+                    fputc(')', stdout);
+                } else if (p && edn_type(p) == EDN_TYPE_BIGDEC) {
+                    dg = edn_bigdec_get(p, &len, &neg);
+                    printf("(bigdec %d ", neg ? 1 : 0);
+                    if (dg)
+                        put_hex(stdout, dg, len);
+                    else
+                        fputs("NULL", stdout);
+                    fputc(')', stdout);
+                } else {
+                    printf("(notbig)");
+                }
             } else {
                 printf("bad-op");
             }
@@ -1567,6 +2141,7 @@ static void cmd_script(char* args) {
     fputc('\n', stdout);
     fflush(stdout);
     free_regs();
+    c01_script_end();
 }
 
 /* ------------------------------------------------------------------ */
@@ -1666,6 +2241,63 @@ static void cmd_fault(char* args) {
 }
 #endif
 
+#ifdef VERIF_WRAP
+/* H <k> <mode> <opt> <hex> : read with logical request k failing (mode 1: only k, mode 2: k and every later
+ * one, k = 0: none).  Prints the outcome exactly as R does, then the number of logical requests made by the
+ * read, the raw blocks still live when it returned, what became of the parser's arena, and the event trace
+ * (a/A arena request ok/failed, t/T the same on the temporary arena, n/N the two mallocs of edn_arena_create,
+ * m/M any other malloc, c/C calloc, r<id>/R<id>
+ * realloc of block <id>, f<id> free of block <id>, d0/d1 destruction of the parser's / temporary arena; a block's
+ * id is the index of the request that returned it).  Accessors called by the dump are outside the schedule in modes
+ * 1 / 2; modes 3 / 4 are 1 / 2 with the schedule running on through the dump, whose requests are then reported as
+ * dump-reqs=<total> dump-trace=[...]. */
+static void cmd_hfault(char* args) {
+    long k = atol(strtok(args, " \n"));
+    int mode = atoi(strtok(NULL, " \n"));
+    int opt = atoi(strtok(NULL, " \n"));
+    char* hex = strtok(NULL, " \n");
+    size_t n;
+    unsigned char* b = unhex(hex, &n);
+    placed_t p = place_input(b, n);
+    if (opt & 8)
+        ensure_preset(); /* the harness's own registry is not part of the read */
+    vh_req = 0;
+    vh_fail_at = k;
+    vh_fail_from = (mode == 2 || mode == 4);
+    vh_live = 0;
+    vh_creates = 0;
+    vh_in_arena = 0;
+    vh_in_create = 0;
+    memset(vh_ptr, 0, sizeof(vh_ptr));
+    memset(vh_arena, 0, sizeof(vh_arena));
+    memset(vh_arena_state, 0, sizeof(vh_arena_state));
+    vh_trace_len = 0;
+    vh_emit("", 0);
+    vh_trace[0] = 0;
+    vh_active = 1;
+    edn_result_t r = do_read(p.ptr, n, opt);
+    vh_active = 0;
+    long reqs = vh_req, live = vh_live;
+    int ast = vh_arena_state[0];
+    size_t read_trace_len = vh_trace_len;
+    /* modes 3 / 4: the schedule runs on through the accessor calls of the dump (lazily materialised payloads) */
+    if (mode == 3 || mode == 4)
+        vh_active = 1;
+    print_result(stdout, r, (opt & 8) != 0);
+    vh_active = 0;
+    printf(" reqs=%ld live=%ld arena=%s trace=[%.*s]", reqs, live, ast == 1 ? "owned" : ast == 2 ? "destroyed" : "none",
+           (int) read_trace_len, vh_trace);
+    if (mode == 3 || mode == 4)
+        printf(" dump-reqs=%ld dump-trace=[%s]", vh_req, vh_trace + read_trace_len);
+    printf("\n");
+    fflush(stdout);
+    if (r.value && r.value != EOF_SENTINEL)
+        edn_free(r.value);
+    release_input(p);
+    free(b);
+}
+#endif
+
 /* ------------------------------------------------------------------ */
 int main(int argc, char** argv) {
     (void) argc;
@@ -1730,12 +2362,18 @@ int main(int argc, char** argv) {
             case 'X':
                 cmd_external(args);
                 break;
+            case 'K': /* read with handlers that use accessors and the arena (C01) */
+                cmd_read_busy(args);
+                break;
             case 'Q':
                 cmd_script(args);
                 break;
 #ifdef VERIF_WRAP
             case 'F':
                 cmd_fault(args);
+                break;
+            case 'H':
+                cmd_hfault(args);
                 break;
 #endif
             case 'P': { /* P <mode> [tailhex] : input placement */
